@@ -2,7 +2,7 @@
 from .families import run_family
 from ..rules import structure as st
 from ..rules import callsites as cs
-from ..rules import guards, pyrules, forward
+from ..rules import guards, pyrules, forward, origin
 
 
 def extras():
@@ -16,6 +16,7 @@ def run(rep, fb, tier):
 EXTRAS = [
     lambda rep, fb, tier: st.rule_negaxis(rep, fb, floor=14),
     lambda rep, fb, tier: guards.rule_division(rep, fb),
+    lambda rep, fb, tier: origin.rule_rebase(rep, fb),
     lambda rep, fb, tier: pyrules.rule_py_reducers(rep),
     lambda rep, fb, tier: forward.rule_same_name(rep, fb, select=lambda f: "reduce" in f["name"], floor=50, name="FORWARD.same-name:reduce"),
 ]
